@@ -142,3 +142,95 @@ func Race(dir, name, script string, timeoutS int, quant bool, all bool) Result {
 	}
 	return res
 }
+
+// BatchSolvers: argv for incremental scripts with a per-check timeout.
+func batchArgv(name, file string, perCheckS int) []string {
+	switch name {
+	case "z3-4.8.12":
+		return []string{"/usr/bin/z3", fmt.Sprintf("-t:%d", perCheckS*1000), "-smt2", file}
+	case "z3-5.1.0":
+		return []string{"z3-new", fmt.Sprintf("-t:%d", perCheckS*1000), "-smt2", file}
+	default:
+		return []string{"cvc5", "--incremental", fmt.Sprintf("--tlimit-per=%d", perCheckS*1000), "--lang=smt2", file}
+	}
+}
+
+// BatchAnswer: per solver, the answers to the successive check-sat commands.
+type BatchAnswer struct {
+	Solver  string
+	Answers []string
+	Time    float64
+	Raw     string
+}
+
+// RunBatch runs every solver on an incremental script with nChecks check-sat commands.
+func RunBatch(dir, name, script string, expect []string, perCheckS int, quant bool) []BatchAnswer {
+	nChecks := len(expect)
+	file := filepath.Join(dir, name+".smt2")
+	if err := os.WriteFile(file, []byte(script), 0o644); err != nil {
+		return nil
+	}
+	out := make([]BatchAnswer, len(Solvers))
+	root, cancelAll := context.WithCancel(context.Background())
+	defer cancelAll()
+	var wg sync.WaitGroup
+	for i, s := range Solvers {
+		wg.Add(1)
+		go func(i int, s Solver) {
+			defer wg.Done()
+			sem <- struct{}{}
+			defer func() { <-sem }()
+			argv := batchArgv(s.Name, file, perCheckS)
+			if quant && s.Name == "cvc5-1.0" {
+				argv = append(argv[:len(argv)-1], "--enum-inst", file)
+			}
+			if root.Err() != nil {
+				out[i] = BatchAnswer{Solver: s.Name}
+				return
+			}
+			ctx, cancel := context.WithTimeout(root, time.Duration(perCheckS*nChecks+10)*time.Second)
+			defer cancel()
+			cmd := exec.CommandContext(ctx, argv[0], argv[1:]...)
+			cmd.SysProcAttr = &syscall.SysProcAttr{Setpgid: true}
+			cmd.Cancel = func() error {
+				if cmd.Process != nil {
+					syscall.Kill(-cmd.Process.Pid, syscall.SIGKILL)
+				}
+				return nil
+			}
+			var buf bytes.Buffer
+			cmd.Stdout = &buf
+			cmd.Stderr = &buf
+			t0 := time.Now()
+			_ = cmd.Run()
+			ba := BatchAnswer{Solver: s.Name, Time: time.Since(t0).Seconds(), Raw: buf.String()}
+			for _, l := range strings.Split(buf.String(), "\n") {
+				l = strings.TrimSpace(l)
+				switch l {
+				case "sat", "unsat", "unknown", "timeout":
+					ba.Answers = append(ba.Answers, l)
+				}
+			}
+			if root.Err() != nil {
+				// cancelled because another solver already decided everything: partial output is ignored
+				ba.Answers = nil
+			}
+			out[i] = ba
+			// a solver that answered every check as expected decides the batch: stop the others
+			if len(ba.Answers) == nChecks {
+				all := true
+				for k, a := range ba.Answers {
+					if a != expect[k] {
+						all = false
+						break
+					}
+				}
+				if all {
+					cancelAll()
+				}
+			}
+		}(i, s)
+	}
+	wg.Wait()
+	return out
+}
